@@ -576,7 +576,7 @@ func (in *Interp) PCall(fn Value, args []Value, handler Value) (ok bool, res []V
 			th.nC = nC
 			ok = false
 			if handler != nil {
-				res = []Value{first(in.callC(handler, le.Value))}
+				res = in.runHandler(handler, le.Value)
 			} else {
 				res = []Value{le.Value}
 			}
@@ -586,6 +586,23 @@ func (in *Interp) PCall(fn Value, args []Value, handler Value) (ok bool, res []V
 	r := in.Call(fn, args)
 	th.nC--
 	return true, r
+}
+
+// runHandler calls xpcall's message handler. An error inside the handler is
+// not specified usefully by 5.1 (the handler is re-entered until the C stack
+// overflows): the model returns that error as xpcall's result and tags the run.
+func (in *Interp) runHandler(handler Value, errv Value) (res []Value) {
+	defer func() {
+		if r := recover(); r != nil {
+			le, isLua := r.(*LuaError)
+			if !isLua {
+				panic(r)
+			}
+			in.Tags["error-in-handler"]++
+			res = []Value{le.Value}
+		}
+	}()
+	return []Value{first(in.callC(handler, errv))}
 }
 
 // ---- coroutines ----
